@@ -381,7 +381,8 @@ func c02CompileModule(mod *ast.Module) (serve c02Serve, code map[*ast.Route][]by
 	return c02Both, code, ""
 }
 
-func c02EngineVM(route *ast.Route, bytecode []byte, r c02Req) (out c02Outcome) {
+func c02EngineVM(mod *ast.Module, route *ast.Route, bytecode []byte, r c02Req) (out c02Outcome) {
+	setCompiledTypeDefs(mod) // global, as set by setupRoutes for the module being served
 	defer func() {
 		if p := recover(); p != nil {
 			out = c02Outcome{Panic: fmt.Sprint(p)}
@@ -524,13 +525,14 @@ func c02RunEngine(mod *ast.Module, route *ast.Route, r c02Req) (serve c02Serve, 
 	if !loaded {
 		return c02Refused, oi, ov
 	}
-	ov = c02EngineVM(route, code[route], r)
+	ov = c02EngineVM(mod, route, code[route], r)
 	return c02Both, oi, ov
 }
 
 // ---- HTTP level ------------------------------------------------------------
 
 type c02Server struct {
+	mod         *ast.Module
 	handler     http.HandlerFunc
 	useCompiler bool
 	stop        func()
@@ -545,7 +547,7 @@ func c02Setup(mod *ast.Module, forceInterpreter bool) (*c02Server, error) {
 		}
 		return nil, err
 	}
-	return &c02Server{handler: createHandler(router), useCompiler: useCompiler, stop: func() { runtime.Gosched(); wsServer.Shutdown() }}, nil
+	return &c02Server{mod: mod, handler: createHandler(router), useCompiler: useCompiler, stop: func() { runtime.Gosched(); wsServer.Shutdown() }}, nil
 }
 
 func (s *c02Server) do(pattern string, r c02Req, watchdog bool) (out c02Outcome) {
@@ -565,6 +567,9 @@ func (s *c02Server) do(pattern string, r c02Req, watchdog bool) (out c02Outcome)
 		req.Header.Set("Xtest", *r.XTest)
 	}
 	rec := httptest.NewRecorder()
+	// compiledTypeDefs is process-global and set by setupRoutes; one process serves
+	// one module, so restore this server's definitions before every request
+	setCompiledTypeDefs(s.mod)
 	run := func() {
 		defer func() {
 			if p := recover(); p != nil {
